@@ -97,6 +97,10 @@ theorem bindLabel_resp (id toSec toOff : Nat) : Resp (fun h => h.bindLabel id to
       by_cases h2 : le.bound.isSome = true
       · simp only [h2, if_true]; constructor <;> first | rfl | trivial
       · simp only [h2, Bool.false_eq_true, ↓reduceIte]
+        by_cases h3 : (le.fixups.any (fun f => f.reloc.isNone && f.sec == toSec &&
+            (encodeFixup f.a64b ((toOff : Int) - (f.off : Int) + f.rel) f.size).isNone)) = true
+        · simp only [h3, if_true]; constructor <;> first | rfl | trivial
+        simp only [h3, Bool.false_eq_true, ↓reduceIte]
         have key : ({ h with labels := updAt h.labels id fun l => { l with bound := some (toSec, toOff), fixups := [] } } : Holder).obs =
             ({ h.obs with labels := updAt h.obs.labels id fun l => { l with bound := some (toSec, toOff), fixups := [] } } : Holder).obs := by
           simp [Holder.obs]
